@@ -4,6 +4,7 @@
 -/
 import SV.Proofs.C16Lines
 import SV.Proofs.C16Run
+import SV.Proofs.C16Exit
 
 namespace SV.Props.C16
 open SV.Model.C16 SV.Spec.C16 SV.Proofs.C16
@@ -353,6 +354,120 @@ theorem shared_queue_full_false :
   revert this
   decide
 
+/-! ## the end of the run: `shutdown`'s join, `_execute` leaving, click closing the files it opened
+
+`CassetteWriter.shutdown` puts `Finalize` and joins the writer thread; then `_execute` is left through `sys.exit` (or an
+exception) and click closes the context of the command - with it the lazy files of `--report-vcr-path` /
+`--report-har-path`; the interpreter then waits for the writer threads, which are not daemons.  `.repaired`: `join()`
+waits for the thread; `.asFound`: `join(1)` may return while the writer still has a backlog. -/
+
+/-- Repaired ordering (join without time-out), at full strength: for every set of cassette writers (own queues), every
+    owner of every report file, seed, event history, point at which a later handler raises, and EVERY interleaving of
+    the main thread (puts, joins, exit) with the writer threads - as soon as `_execute` has been left, every report on
+    disk is what the property asks for: no fragment, the document closed, the preamble and each delivered exchange
+    exactly once in delivery order; every writer has returned and none died. -/
+theorem exit_reports_complete (cfg : Nat → HCfg) (owner : Nat → Owner) (n : Nat) (hown : ∀ i, i < n → OwnQueue cfg n i)
+    (seed : Option Nat) (evs : List Ev) (crash : Option (Nat × Nat)) (sched : List PAct) :
+    let p := prun .repaired cfg owner n sched (PSys.init (mainProgram n seed evs crash))
+    p.exited = true → ∀ i, i < n →
+      finalReportOK (cfg i).fmt seed (deliveredTo i evs crash) (diskOf cfg p i) = true ∧
+      (p.sys.ws i).done = true ∧ p.dead i = false := by
+  intro p hex i hi
+  obtain ⟨hd, hdead, htorn, hout⟩ := exited_complete cfg owner n hown seed evs crash sched hex i hi
+  refine ⟨?_, hd, hdead⟩
+  have hd' : (p.sys.ws i).done = true := hd
+  have ht' : p.torn i = false := htorn
+  have ho' : (p.sys.ws i).out = expectedFile (cfg i).fmt seed (deliveredTo i evs crash) := hout
+  simp only [finalReportOK, diskOf, reportOK, ht', hd', ho']
+  cases (cfg i).fmt <;> simp
+
+/-- … and waiting for the thread cannot hang the run: from ANY point of ANY interleaving, letting the main thread put
+    what is left, the writers drain their queues, every join return because its thread has terminated, and the command
+    exit, is a continuation under the repaired ordering - `_execute` is left, and (previous theorem) with complete
+    reports. -/
+theorem exit_repaired_terminates (cfg : Nat → HCfg) (owner : Nat → Owner) (n : Nat) (hown : ∀ i, i < n → OwnQueue cfg n i)
+    (seed : Option Nat) (evs : List Ev) (crash : Option (Nat × Nat)) (sched : List PAct) :
+    let pc0 := mainProgram n seed evs crash
+    let p := prun .repaired cfg owner n (sched ++ finishSched pc0.length n) (PSys.init pc0)
+    Terminated n p ∧ ∀ i, i < n → finalReportOK (cfg i).fmt seed (deliveredTo i evs crash) (diskOf cfg p i) = true := by
+  intro pc0 p
+  have hex : p.exited = true := finishes cfg owner n hown seed evs crash sched
+  have hall := exit_reports_complete cfg owner n hown seed evs crash (sched ++ finishSched pc0.length n) hex
+  exact ⟨⟨hex, fun i hi => Or.inl (hall i hi).2.1⟩, fun i hi => (hall i hi).1⟩
+
+/-- The code as found does not have this property (kernel-checked witnesses).  One VCR writer on a
+    `--report-vcr-path` file, two scenarios: the writer has written the preamble when `join(1)` times out; `_execute`
+    is left, click closes the file while the writer is inside the body of the first `Process`; the thread dies with
+    `ValueError` - the process ends with a cassette that holds the preamble and a fragment.  Same with HAR, the close
+    falling between two loop bodies: the file ends without its closing brackets. -/
+theorem exit_asFound_full_false :
+    ¬ (∀ (cfg : Nat → HCfg) (owner : Nat → Owner) (n i : Nat) (seed : Option Nat) (evs : List Ev) (sched : List PAct),
+        i < n → OwnQueue cfg n i →
+        let p := prun .asFound cfg owner n sched (PSys.init (mainProgram n seed evs none))
+        Terminated n p → finalReportOK (cfg i).fmt seed (deliveredTo i evs none) (diskOf cfg p i) = true) := by
+  intro h
+  have := h (cfgOf [.vcr]) (fun _ => .option) 1 0 (some 1) [some [10], some [11]]
+    (List.replicate 4 (.base .main) ++ [.base (.work 0), .join false, .exit [0]]) (by decide)
+    (fun j hj hne => absurd (by omega) hne)
+  revert this
+  simp only [Terminated]
+  decide
+
+theorem exit_asFound_har_witness :
+    let p := prun .asFound (cfgOf [.har]) (fun _ => .option) 1
+      (List.replicate 3 (.base .main) ++ [.join false, .exit [], .base (.work 0), .base (.work 0), .base (.work 0)])
+      (PSys.init (mainProgram 1 none [some [10]] none))
+    p.exited = true ∧ p.dead 0 = true ∧ diskOf (cfgOf [.har]) p 0 = ⟨[], false, false⟩ := by
+  decide
+
+/-- What the code as found does guarantee (1): a report whose file click does not own (`--report=vcr,har`, with or
+    without `--report-dir`) is complete when the process is over, whatever the joins did - the interpreter waits for
+    the writer thread and nobody closes the file under it. -/
+theorem exit_asFound_reportDir_partial (v : Variant) (cfg : Nat → HCfg) (owner : Nat → Owner) (n i : Nat) (hi : i < n)
+    (hown : OwnQueue cfg n i) (ho : owner i = .reportDir) (seed : Option Nat) (evs : List Ev) (crash : Option (Nat × Nat))
+    (sched : List PAct) :
+    let p := prun v cfg owner n sched (PSys.init (mainProgram n seed evs crash))
+    Terminated n p → finalReportOK (cfg i).fmt seed (deliveredTo i evs crash) (diskOf cfg p i) = true := by
+  intro p ht
+  have hinv : DirInv i p := dirinv_run v cfg owner n i ho sched _ ⟨rfl, rfl, rfl⟩
+  have hd : (p.sys.ws i).done = true := by
+    rcases ht.2 i hi with h | h
+    · exact h
+    · rw [hinv.dead] at h; exact absurd h (by simp)
+  obtain ⟨bs, hbs⟩ := prun_sys v cfg owner n sched (PSys.init (mainProgram n seed evs crash))
+  have hs : p.sys = run cfg n bs (Sys.init (mainProgram n seed evs crash)) := hbs
+  have hw := writer_after_run cfg n i hi hown seed evs crash bs
+  have ho' : (p.sys.ws i).out = expectedFile (cfg i).fmt seed (deliveredTo i evs crash) := by
+    rw [hs] at hd ⊢; exact hw.2.1 hd
+  have ht' : p.torn i = false := hinv.torn
+  simp only [finalReportOK, diskOf, reportOK, ht', hd, ho']
+  cases (cfg i).fmt <;> simp
+
+/-- What the code as found does guarantee (2): a run in which no join timed out (every writer got through its backlog
+    within a second of `Finalize`) is a run of the repaired ordering - all reports complete at exit. -/
+theorem exit_asFound_no_timeout_partial (cfg : Nat → HCfg) (owner : Nat → Owner) (n : Nat) (hown : ∀ i, i < n → OwnQueue cfg n i)
+    (seed : Option Nat) (evs : List Ev) (crash : Option (Nat × Nat)) (sched : List PAct) (hno : ∀ a ∈ sched, a ≠ .join false) :
+    let p := prun .asFound cfg owner n sched (PSys.init (mainProgram n seed evs crash))
+    p.exited = true → ∀ i, i < n → finalReportOK (cfg i).fmt seed (deliveredTo i evs crash) (diskOf cfg p i) = true := by
+  intro p hex i hi
+  have he : p = prun .repaired cfg owner n sched (PSys.init (mainProgram n seed evs crash)) :=
+    prun_no_timeout cfg owner n sched hno _
+  rw [he] at hex ⊢
+  exact (exit_reports_complete cfg owner n hown seed evs crash sched hex i hi).1
+
+/-- In both orderings and at every moment, what is in a report file is a prefix of the report the specification asks
+    for: the only way the end of the run can damage a report is by cutting it short. -/
+theorem exit_file_is_prefix (v : Variant) (cfg : Nat → HCfg) (owner : Nat → Owner) (n i : Nat) (hi : i < n)
+    (hown : OwnQueue cfg n i) (seed : Option Nat) (evs : List Ev) (crash : Option (Nat × Nat)) (sched : List PAct) :
+    let p := prun v cfg owner n sched (PSys.init (mainProgram n seed evs crash))
+    (diskOf cfg p i).chunks <+: expectedFile (cfg i).fmt seed (deliveredTo i evs crash) := by
+  intro p
+  obtain ⟨bs, hbs⟩ := prun_sys v cfg owner n sched (PSys.init (mainProgram n seed evs crash))
+  have hs : p.sys = run cfg n bs (Sys.init (mainProgram n seed evs crash)) := hbs
+  have hw := writer_after_run cfg n i hi hown seed evs crash bs
+  show (p.sys.ws i).out <+: _
+  rw [hs]; exact hw.1
+
 /-- `get_command_representation`: the command line is reported only for the `st` / `schemathesis` entry points. -/
 theorem command_repr_spec (a0 : Str) (args : List Str) :
     commandRepr (a0 :: args) =
@@ -379,5 +494,20 @@ example : OwnQueue (cfgOf [.vcr, .har]) 2 0 ∧ OwnQueue (cfgOf [.vcr, .har]) 2 
 example : ¬ OwnQueue sharedCfg 2 0 := fun h => h 1 (by decide) (by decide) rfl
 example : deliveredTo 0 [some [1], some [2], some [3]] (some (1, 1)) = [some [1], some [2]] ∧
     deliveredTo 1 [some [1], some [2], some [3]] (some (1, 1)) = [some [1]] := by decide
+
+-- the end of the run: the hypotheses are met by real shapes (a complete run of `--report-vcr-path=… --report=har`)
+example :
+    let fs := [Fmt.vcr, Fmt.har]
+    let p := prun .repaired (cfgOf fs) (ownerOf (fun f => f == .vcr) fs) 2
+      (List.replicate 8 (.base .main) ++ [.join false, .base (.work 0), .base (.work 0)] ++ finishSched 8 2)
+      (PSys.init (mainProgram 2 (some 1) [some [10, 11], none, some [12]] none))
+    p.exited = true ∧ Terminated 2 p ∧ p.joined = 2 ∧
+    diskOf (cfgOf fs) p 0 = ⟨[.preamble (some 1), .entry 10, .entry 11, .entry 12], false, true⟩ ∧
+    diskOf (cfgOf fs) p 1 = ⟨[.entry 10, .entry 11, .entry 12], false, true⟩ := by
+  simp only [Terminated]
+  decide
+example : ownerOf (fun f => f == .vcr) [Fmt.vcr, Fmt.har] 0 = .option ∧ ownerOf (fun f => f == .vcr) [Fmt.vcr, Fmt.har] 1 = .reportDir := by
+  decide
+example : ∀ a ∈ (List.replicate 8 (PAct.base .main) ++ finishSched 8 2), a ≠ .join false := by decide
 
 end SV.Props.C16
